@@ -28,6 +28,9 @@ func BuildPike(dir string) (string, error) {
 	out := filepath.Join(dir, "pike-bin")
 	cmd := exec.Command("go", "build", "-race", "-tags", "verif", "-o", out, ".")
 	cmd.Dir = "/repo"
+	if d := os.Getenv("VERIF_REPO"); d != "" {
+		cmd.Dir = d
+	}
 	cmd.Env = append(os.Environ(), "GOFLAGS=-mod=mod", "GOPROXY=off", "GOSUMDB=off", "GOTOOLCHAIN=local")
 	if b, err := cmd.CombinedOutput(); err != nil {
 		return "", fmt.Errorf("build pike: %v: %s", err, b)
